@@ -372,7 +372,7 @@ var _ = strings.HasPrefix
 
 type constMapEntry struct {
 	key uint64
-	val *ssa.Const
+	val ssa.Value // *ssa.Const or *ssa.Function
 }
 
 var constMapCache = map[*ssa.Global][]constMapEntry{}
@@ -453,8 +453,18 @@ func constMapOf(g *ssa.Global) ([]constMapEntry, bool) {
 		switch x := r.(type) {
 		case *ssa.MapUpdate:
 			k, okK := x.Key.(*ssa.Const)
-			v, okV := x.Value.(*ssa.Const)
-			if !okK || !okV || x.Map != ssa.Value(mk) {
+			var v ssa.Value
+			switch y := x.Value.(type) {
+			case *ssa.Const:
+				v = y
+			case *ssa.Function:
+				v = y
+			case *ssa.ChangeType:
+				if f, isF := y.X.(*ssa.Function); isF {
+					v = f
+				}
+			}
+			if !okK || v == nil || x.Map != ssa.Value(mk) {
 				return bad()
 			}
 			kv, okI := ConstInt(k)
@@ -509,7 +519,7 @@ func (ex *Exec) forkLookup(s *astate, fr *aframe, x *ssa.Lookup) []*astate {
 	if k, isK := key.ConstVal(); isK {
 		for _, e := range entries {
 			if e.key == k {
-				fr.env[x] = result(constVal(e.val), true)
+				fr.env[x] = result(ex.val(s, fr, e.val), true)
 				fr.pc++
 				return []*astate{s}
 			}
@@ -547,7 +557,7 @@ func (ex *Exec) forkLookup(s *astate, fr *aframe, x *ssa.Lookup) []*astate {
 		}
 		c.narrow(key.Bits, signed, int64(e.key), int64(e.key))
 		cf := c.frames[len(c.frames)-1]
-		cf.env[x] = result(constVal(e.val), true)
+		cf.env[x] = result(ex.val(c, cf, e.val), true)
 		cf.pc++
 		out = append(out, c)
 	}
